@@ -201,7 +201,7 @@ func (g *gen) expr(d int) string {
 		case 3:
 			return "(func())(" + g.expr(d-1) + ")"
 		default:
-			return g.typ(1) + "(" + g.expr(d-1) + ")"
+			return g.pick("T", "pkg.T", "[]int", "map[string]T", "[2]byte", "interface{}", "string") + "(" + g.expr(d-1) + ")"
 		}
 	case 18:
 		if g.tmpl {
